@@ -243,6 +243,8 @@ func (c *campaign) worker(cfg cfgSpec, k, procs int, deadline time.Time, outDir 
 		}
 		c.mu.Lock()
 		switch code {
+		case 5:
+			// a run stopped by the scheduler (reported through its result); the process retired itself
 		case 3:
 			c.watchdogs++
 		case 4:
@@ -254,21 +256,56 @@ func (c *campaign) worker(cfg cfgSpec, k, procs int, deadline time.Time, outDir 
 				msg = msg[:2000] + "\n...\n" + msg[len(msg)-2000:]
 			}
 			c.workerErrs = append(c.workerErrs, fmt.Sprintf("worker cfg=%s exit=%d after seed %d:\n%s", cfg.Name, code, last, msg))
-			if code != 2 {
-				// an uncontrolled crash of the process (runtime fatal error, panic outside a run): record the seed
-				key := "crash|process-crash"
+			if code != 12 {
+				// the system under test killed the process (panic in one of its goroutines, runtime fatal
+				// error): the seed re-run from scratch is the replay
+				sig := "process-crash"
+				if i := strings.Index(msg, "panic: "); i >= 0 {
+					line := msg[i:]
+					if j := strings.Index(line, "\n"); j > 0 {
+						line = line[:j]
+					}
+					sig = "panic:" + line
+				} else if i := strings.Index(msg, "fatal error: "); i >= 0 {
+					line := msg[i:]
+					if j := strings.Index(line, "\n"); j > 0 {
+						line = line[:j]
+					}
+					sig = line
+				}
+				key := "crash|" + sig
 				if _, ok := c.violInfo[key]; !ok {
-					c.violInfo[key] = violation{"crash", "process-crash", fmt.Sprintf("worker process died (exit %d) in seed %d: %s", code, last, tail(msg, 1500))}
+					c.violInfo[key] = violation{"crash", sig, fmt.Sprintf("worker process died (exit %d) in seed %d: %s", code, last, tail(msg, 3000))}
 					c.violGating[key] = cfg.Gating
+					ff := filepath.Join(outDir, fmt.Sprintf("%s-%d.orig.json", c.spec.Harness, last))
+					fb, _ := json.Marshal(map[string]any{"harness": c.spec.Harness, "config": parseCfgMap(cfg.Cfg), "seed": last, "fresh": true,
+						"violation_class": "crash", "violation_signature": sig, "streams": map[string]any{}, "minimised": false})
+					os.WriteFile(ff, fb, 0o644)
+					c.violFiles[key] = ff
 				}
 			}
 		}
 		c.mu.Unlock()
-		if code == 2 {
+		if code == 12 {
 			return
 		}
 		start = last + uint64(procs)
 	}
+}
+
+func parseCfgMap(s string) map[string]string {
+	m := map[string]string{}
+	for _, kv := range strings.Split(s, ",") {
+		if kv == "" {
+			continue
+		}
+		if i := strings.Index(kv, "="); i >= 0 {
+			m[kv[:i]] = kv[i+1:]
+		} else {
+			m[kv] = "1"
+		}
+	}
+	return m
 }
 
 func tail(s string, n int) string {
@@ -458,6 +495,17 @@ func (c *campaign) report(seed uint64, t0 time.Time) int {
 		v := c.violInfo[k]
 		orig := c.violFiles[k]
 		gating := c.violGating[k]
+		if len(c.spec.Classes) > 0 {
+			mine := false
+			for _, pre := range c.spec.Classes {
+				if strings.HasPrefix(v.Class, pre) {
+					mine = true
+				}
+			}
+			if !mine {
+				gating = false
+			}
+		}
 		if handled >= 4 {
 			// enough minimisation work; still report the rest unminimised
 		}
@@ -481,7 +529,7 @@ func (c *campaign) report(seed uint64, t0 time.Time) int {
 				setProperty(keep, c.spec.ID)
 				minOut := base + ".json"
 				final = keep
-				if handled <= 4 && v.Class != "panic" {
+				if handled <= 4 && v.Class != "panic" && v.Class != "crash" {
 					cmd := exec.Command(c.bin, "-test.run", "^TestWorker$", "-test.timeout", "0")
 					cmd.Env = append(os.Environ(), "DSIM_MODE=minimise", "DSIM_FILE="+keep, "DSIM_MINOUT="+minOut, "DSIM_SITES="+c.sites, "GOMAXPROCS=2")
 					done := make(chan error, 1)
@@ -505,6 +553,10 @@ func (c *campaign) report(seed uint64, t0 time.Time) int {
 					r, err := c.replayOnce(final, true, mp)
 					_ = i
 					if err != nil {
+						if v.Class == "crash" && strings.Contains(err.Error(), "replay died") {
+							okCount++ // the process dies again: that is the reproduction
+							continue
+						}
 						diverged = err.Error()
 						continue
 					}
@@ -703,7 +755,7 @@ func (c *campaign) writeEvidence(seed uint64, t0 time.Time, nviol int, observati
 
 func doReplay(spec *checkSpec, bin, sites, file string) int {
 	c := &campaign{spec: spec, bin: bin, sites: sites}
-	r, err := c.replayOnce(file, true, 4)
+	r, err := c.replayOnce(file, os.Getenv("DSIM_LOOSE") == "", 4)
 	if err != nil {
 		fmt.Println("MACHINERY:", err)
 		return 2
